@@ -5,6 +5,7 @@ from ..util import (SUBR, TEXTR, RTRAIT, ends, is_callee, field_accesses, site, 
                     transitive_closures, edge_is_true, src_field, deep_atoms, has_call, has_field,
                     find_dispatch)
 from .. import drops
+from ..widths import norm as widths_norm
 
 EXPLANATION = (
     "Static decision of the marker plumbing: every element with an id (or <a name>) gets a FragStart "
@@ -195,7 +196,8 @@ def rule_b(ctx):
         n += 1
         pl = t["place"]
         ty = pl["ty"]
-        ex = b.expr(pl)
+        ex = widths_norm(b.canon(pl))
+        ex_readable = b.expr(pl)
         key = "%s:drop(%s)" % (fn_key(b), ex)
         s = t["span"]
         errs = drops.error_blocks(b)
@@ -284,6 +286,30 @@ def rule_c(ctx):
             part_push[0][0] not in al.reach_from(0, avoid=[frag_push[0][0]]) or \
             (len(frag_push) == 1 and len(part_push) == 1 and al.dominates(takes[0][0], part_push[0][0]))
         ctx.check(okc, "C14-C", "add_line:fragments-before-line-parts", al.span, al.id, "")
+    # hard wrap: the arm that carries a non-text element only pushes it onto the current line — it must not flush or
+    # otherwise restart the line (a line holding nothing but markers is never emitted)
+    hw = F.one("WrappedBlock::<T>::flush_word_hard_wrap")
+    from ..util import effects_in
+    arm = None
+    for a in sorted(hw.reachable()):
+        tt = hw.term(a)
+        if tt["k"] == "switch":
+            neg, src = hw.switch_source(a)
+            if src[0] == "discr" and src[1]["ty"].startswith("render::text_renderer::TaggedLineElement"):
+                str_t = [tb for v, tb in tt["targets"] if v == 0]
+                other = [s for s in hw.succ(a) if s not in str_t]
+                if str_t and other and (arm is None or hw.dominates(a, arm[0])):
+                    arm = (a, other[0], str_t[0])
+    if ctx.check(arm is not None, "C14-C", "hard-wrap:marker-arm-exists", hw.span, hw.id,
+                 "the hard-wrap loop must handle non-text elements of the word"):
+        a, entry, str_entry = arm
+        region = hw.reach_from(entry, avoid=[a]) - hw.reach_from(str_entry, avoid=[a])
+        eff = effects_in(hw, region)
+        calls = sorted({e[1] for e in eff if e[0] == "call"})
+        stores = sorted({e[1] for e in eff if e[0] == "store"})
+        ctx.check(calls == ["push"] and not stores, "C14-C", "hard-wrap:marker-arm-only-pushes", hw.term(entry)["span"], hw.id,
+                  "in the marker arm of the hard-wrap loop the element must simply join the current line; found calls %s, stores %s"
+                  % (calls, stores))
     # writer inventory of pending_frags
     n = 0
     for (b, bb, where, pl, acc) in field_accesses(F, SUBR, "pending_frags"):
